@@ -60,6 +60,7 @@ type c05Case struct {
 	Lines   []string `json:"lines"` // hex
 	PauseEvery int   `json:"pause_every"` // sleep 1ms after this many lines (0 = never): lets the conn catch up
 	SlowReadUs int   `json:"slow_read_us"` // endpoint sleeps this long between reads
+	Pickle     bool  `json:"pickle"`       // pickle-mode destination: the stream is length-prefixed pickles, one per line
 }
 
 func runWriter(c *c05Case) (interface{}, error) {
@@ -153,6 +154,20 @@ func countNL(b []byte) int {
 	return n
 }
 
+// countFrames counts the complete 4-byte-length-prefixed frames at the start of b
+func countFrames(b []byte) int {
+	n := 0
+	for len(b) >= 4 {
+		l := int(b[0])<<24 | int(b[1])<<16 | int(b[2])<<8 | int(b[3])
+		if l == 0 || len(b) < 4+l {
+			break
+		}
+		b = b[4+l:]
+		n++
+	}
+	return n
+}
+
 func runLive(c *c05Case) (interface{}, error) {
 	s, err := newSink(time.Duration(c.SlowReadUs) * time.Microsecond)
 	if err != nil {
@@ -161,7 +176,7 @@ func runLive(c *c05Case) (interface{}, error) {
 	defer s.close()
 	m, _ := matcher.New("", "", "", "", "", "")
 	rn := fresh("c05r")
-	d, err := dest.New(rn, m, s.ln.Addr().String(), "/nonexistent-spool", false, false,
+	d, err := dest.New(rn, m, s.ln.Addr().String(), "/nonexistent-spool", false, c.Pickle,
 		time.Duration(c.FlushMs)*time.Millisecond, time.Hour, c.ConnBuf, c.IOBuf, 10, 1000, 10, time.Hour, time.Millisecond, time.Millisecond)
 	if err != nil {
 		return nil, err
@@ -185,6 +200,9 @@ func runLive(c *c05Case) (interface{}, error) {
 	// quiescence: every line that was not counted as dropped must arrive (the periodic flush pushes the tail out)
 	waitFor(8*time.Second, func() bool {
 		drops := int(slow.Count() - s0 + noconn.Count() - n0)
+		if c.Pickle {
+			return countFrames(s.bytes()) >= len(c.Lines)-drops
+		}
 		return countNL(s.bytes()) >= len(c.Lines)-drops
 	})
 	time.Sleep(time.Duration(2*c.FlushMs+2) * time.Millisecond)
